@@ -299,6 +299,14 @@ def rule_pairs(ctx, prop):
                         parts = []
                         for o in s["rv"]["ops"]:
                             parts.append("const" if is_const(o) else ",".join(sorted(c.split("::")[-1] for c in prov_calls(provenance(f, o)))) or "value")
+                        # a pair re-assembled from both halves of one input pair (`for (stmt, semi) in list { push((stmt, semi)) }`)
+                        # is the same pair; what matters is a semicolon half that is not the input's
+                        semi = s["rv"]["ops"][1]
+                        semi_roots = provenance(f, semi, through=None) if not is_const(semi) else {("const", "None")}
+                        fresh = is_const(semi) or any(r[0] == "agg" and r[1].endswith("Option::None") for r in semi_roots) or \
+                            any(r[0] == "call" and re.search(r"TokenReference::(new|symbol)$", r[1]) for r in semi_roots)
+                        if not fresh:
+                            continue
                         rep.violation(f"{f.key} statement-pair-assembled parts={'|'.join(parts)[:60]}",
                                       f"{f.path} builds a (Stmt, semicolon) pair itself ({parts}) instead of moving the block's own pair: "
                                       f"the semicolon token of a sorted require - and every comment attached to it - is dropped or "
